@@ -6,6 +6,7 @@ import (
 
 	utils "github.com/comdex-official/comdex/types"
 
+	auctionv1types "github.com/comdex-official/comdex/x/auction/types"
 	"github.com/comdex-official/comdex/x/auctionsV2/types"
 	auctionsV2types "github.com/comdex-official/comdex/x/auctionsV2/types"
 	collectortypes "github.com/comdex-official/comdex/x/collector/types"
@@ -369,7 +370,10 @@ func (k Keeper) CloseEnglishAuction(ctx sdk.Context, englishAuction types.Auctio
 		// send collateral to user
 		// send harbor to token mint to burn
 		// set net fees data
-		err = k.bankKeeper.SendCoinsFromModuleToModule(ctx, collectortypes.ModuleName, auctionsV2types.ModuleName, sdk.NewCoins(englishAuction.CollateralToken))
+		// The lot already left the collector, and the collector's net fees were
+		// reduced by it, when the auction was activated
+		// (collector.GetAmountFromCollector parks it in the auction module account).
+		err = k.bankKeeper.SendCoinsFromModuleToModule(ctx, auctionv1types.ModuleName, auctionsV2types.ModuleName, sdk.NewCoins(englishAuction.CollateralToken))
 		if err != nil {
 			return err
 		}
@@ -388,11 +392,6 @@ func (k Keeper) CloseEnglishAuction(ctx sdk.Context, englishAuction types.Auctio
 		err = k.tokenMint.BurnTokensForApp(ctx, englishAuction.AppId, englishAuction.DebtAssetId, englishAuction.DebtToken.Amount)
 		if err != nil {
 			return err
-		}
-
-		err = k.collector.SetNetFeeCollectedData(ctx, englishAuction.AppId, englishAuction.CollateralAssetId, englishAuction.CollateralToken.Amount)
-		if err != nil {
-			return types.ErrorUnableToSetNetFees
 		}
 
 		auctionLookupTable, found := k.collector.GetAuctionMappingForApp(ctx, englishAuction.AppId, englishAuction.CollateralAssetId)
